@@ -31,7 +31,7 @@ type zeroReader struct {
 
 func (z *zeroReader) Read(p []byte) (int, error) {
 	if z.s == nil {
-		z.s = alpha.Stream("c11-reader-" + z.label)
+		z.s = alpha.Stream("c11-reader-" + z.label + keyTag)
 	}
 	for i := range p {
 		p[i] = 0
@@ -104,8 +104,12 @@ type outcome struct {
 
 var ed = edwards25519.NewBlakeSHA256Ed25519()
 
+// keyTag varies the seeded randomness of a whole run (used by KeysFromDKG to
+// obtain independent long-term and one-time keys).
+var keyTag string
+
 func mkSuite(label string) dkg.Suite {
-	return edwards25519.NewBlakeSHA256Ed25519WithRand(alpha.Stream("c11-suite-" + label))
+	return edwards25519.NewBlakeSHA256Ed25519WithRand(alpha.Stream("c11-suite-" + label + keyTag))
 }
 
 func longterm(i int, label string) (kyber.Scalar, kyber.Point) {
